@@ -16,6 +16,11 @@ import traceback
 from .ctx import Res, jsonable
 
 
+# once this many violation records exist the run stops exploring: the verdict cannot change any more, and a defect that makes every
+# cell slow (run-away loops cut only by the step budget) must not turn a check into an hours-long job
+ABORT_AFTER = int(os.environ.get("VERIF_ABORT_AFTER", "4000"))
+
+
 class Horizon(BaseException):      # BaseException: must pass through the library's own "except Exception" handlers
     pass
 
@@ -112,6 +117,10 @@ def pmap(fn, cases, ctx, section=None, horizon=120, chunksize=None, pid=None, co
             for i, r in pool.imap_unordered(_call_idx, idx, chunksize=chunksize):
                 out[i] = r.ret
                 ctx.merge(r, section)
+                if len(ctx.violations) > ABORT_AFTER:
+                    pool.terminate()
+                    ctx.cap("aborted after %d violation records (the property is already refuted; remaining cells not explored)" % len(ctx.violations))
+                    break
         return out
     cases = rotate(cases, ctx.seed)
     _FN, _HOR, _PID = fn, horizon, (pid or ctx.pid)
@@ -126,4 +135,8 @@ def pmap(fn, cases, ctx, section=None, horizon=120, chunksize=None, pid=None, co
     with mp.Pool(jobs) as pool:
         for r in pool.imap_unordered(_call, cases, chunksize=chunksize):
             ctx.merge(r, section)
+            if len(ctx.violations) > ABORT_AFTER:
+                pool.terminate()
+                ctx.cap("aborted after %d violation records (the property is already refuted; remaining cells not explored)" % len(ctx.violations))
+                break
     return len(cases)
